@@ -230,10 +230,9 @@ impl Scenario for Close {
         }
         v.push(json!({"who": "server", "after": "closeok", "stall": false, "code": 320, "text": "y".repeat(255), "codes": true}));
         // crossing closes against a server that, like RabbitMQ in its closing state, still answers
-        // the client's Close with CloseOk (which then follows the server's own Close in the stream)
-        for stall in [false, true] {
-            v.push(json!({"who": "server", "after": "closeok", "stall": stall, "code": 320, "answer_crossing": true}));
-        }
+        // the client's Close with CloseOk (which then follows the server's own Close in the stream).
+        // (In this session the connection thread closes only after the other threads have seen the
+        // server's close, so a push-driven crossing cannot occur: the crossing is scripted.)
         v.push(json!({"who": "client", "after": "closeok", "stall": false, "code": 320, "crossing_same_read": true}));
         // queues of one entry and a high-water mark of 0 behind a stalled transport: when the close
         // happens a caller is blocked handing its request over (not yet waiting for a reply)
